@@ -91,6 +91,28 @@ CHECKS = {
              ">= retry period with doubling/cap/reset, bounded progress, no calls without a reference, readResponse only when ready).",
         note="Bounded depth for the exhaustive part; LP64 host: loop()'s unsigned long arithmetic does not wrap at 2^32 here.",
         design="2/C14", category="exploration"),
+    "C04": dict(
+        technique="differential testing (C++ vs Python reference implementation, and 8 Python configurations against each other) on generated instants and wall times",
+        text="Every zone of zonedbx, decoded by the C++ brokers and mapped to the Python data model (same data by construction): C++ "
+             "(offset, DST offset, abbreviation) vs ZoneSpecifier at every change instant +-1 s of either side and month starts; the "
+             "offset selected for every wall minute within +-180 min of every transition (breakpoint sub-intervals of either side), "
+             "year ends and seed-drawn wall times; option sets {default, 13-month/basic/basic} on all zones and all 8 on 40 seed-drawn "
+             "zones (thorough: all), comparing answers and per-year transition lists; Python history independence on random year orders.",
+        note="Freshly compiled sources are covered by C03/C20 (InlineGenerator data vs generated tables). One known finding (13-month "
+             "window, Asia/Khandyga) is listed in KNOWN_FINDINGS.txt.",
+        design="2/C04"),
+    "C09": dict(
+        technique="coverage-guided fuzzing (libFuzzer) + seeded structured generation of op sequences under ASan/UBSan with an in-target error-value oracle; bounded exhaustive sequences; buffer high-water invariant",
+        text="Byte-decoded op sequences over 24 op families of the public surface with boundary-biased argument pools: a seeded generator "
+             "(6.4e5 inputs, ~1e7 ops quick) and a libFuzzer campaign (8 x 45 s quick, 16 x 20 min thorough); every UBSan site is "
+             "collected in recover mode with the input that reached it, fatal ASan errors through the death callback; oracle: out-of-"
+             "domain arguments give the documented error value twice. Exhaustive length<=4 sequences over {valid, below, above, "
+             "sentinel} x {off, delta, abbrev, odt, print} vs a fresh processor for sampled (thorough: all) zones. Clause (c): per "
+             "zone and year 1999..2050 the pool high-water is below the recorded size and the capacity and the basic drop counter is 0, "
+             "on shipped and regenerated tables (C03 adds the 2025b and generated sources).",
+        note="14 signed-overflow sites at the int32 representability limits are listed as known findings (keyed kind@File:function). "
+             "Out-of-range oracle allows one year of slack around the accepted window 1999..2050.",
+        design="2/C09"),
     "C05": dict(
         technique="strided / boundary-targeted generation of instants, round-trip and metamorphic (conversion-invariance) oracles",
         text="33 manual (std,dst) offset pairs x epoch seconds at stride 4099 (thorough: stride 1 for 8 pairs over the whole valid "
